@@ -13,7 +13,7 @@ import (
 
 func init() { Registry["C12"] = runC12 }
 
-const explanationC12 = "Decides the crash and acceptance shapes named by C12's anchors over every function of package dsl and the validators of package expr: (R12.1) every type assertion in dsl on the evaluation context, on `any` arguments or on data types is comma-ok, a type-switch arm, or dominated by a successful test of the same value; (R12.2) every constant index or slice of a variadic DSL argument list is covered by a dominating bound on its length; (R12.3) results of nil-returning lookups (Find, Attribute, View, Error, Service, UserType, …, computed as pointer/interface-returning functions of expr with an explicit `return nil`) are not dereferenced in dsl or in expr's Validate/Prepare code without a dominating nil test, and pointer variables that a function compares with nil are not dereferenced where no such test dominates; (R12.4) validators are wired and complete — unexported validate* helpers are called with their result consumed, validation results are never dropped, validation loops that record errors have no early exit, search flags set in an inner loop are reset in the enclosing loop (no stale found flag), and self-recursive walkers pass their recursion guard through every recursive call. NOT decided: termination and absence of all panics for all DSL programs (whole-program nil/bounds proof), semantic completeness of the validators."
+const explanationC12 = "Decides the crash and acceptance shapes named by C12's anchors over every function of package dsl and the validators of package expr: (R12.1) every type assertion in dsl on the evaluation context, on `any` arguments or on data types is comma-ok, a type-switch arm, or dominated by a successful test of the same value; (R12.2) every constant index or slice of a variadic DSL argument list is covered by a dominating bound on its length; (R12.3) results of nil-returning lookups (Find, Attribute, View, Error, Service, UserType, …, computed as pointer/interface-returning functions of expr with an explicit `return nil`) are not dereferenced in dsl or in expr's Validate/Prepare code without a dominating nil test, and pointer variables that a function compares with nil are not dereferenced where no such test dominates; (R12.4) validators are wired and complete — unexported validate* helpers are called with their result consumed, validation results are never dropped, validation loops that record errors have no early exit, search flags set in an inner loop are reset in the enclosing loop (no stale found flag), and self-recursive walkers pass their recursion guard through every recursive call; (R12.5) the validator looks API keys up under the scheme-qualified tag the consumers use; (R12.6) it validates the requirements the finalizer will hand to the generators. NOT decided: termination and absence of all panics for all DSL programs (whole-program nil/bounds proof), semantic completeness of the validators."
 
 func runC12(c *an.Ctx) string {
 	r121Assertions(c)
